@@ -241,39 +241,56 @@ func runCurry(rng *rand.Rand, n int) []string {
 			continue
 		}
 		ins, _ := p.DownFlows()
-		// chain supplying one value per type (tag 1000+code), then the curry provider, then a final func
-		items := []any{}
-		for _, t := range curryTypes {
-			items = append(items, mkCurryVal(t, int64(1000+curryCode(t))).Interface())
-		}
-		items = append(items, p, func() {})
+		// chain: the invoke function takes one value per type (tag base+code), then the curry provider, then a final func;
+		// invoked twice with different values: the curried function must use the values of the latest invocation
+		invPtr := reflect.New(reflect.FuncOf(curryTypes, nil, false))
 		var runErr error
-		s = guarded(5*time.Second, func() { runErr = nject.Run("curry", items...) })
+		s = guarded(5*time.Second, func() { runErr = nject.Sequence("curry", p, func() {}).Bind(invPtr.Interface(), nil) })
 		if s != "" || runErr != nil {
 			out = append(out, fmt.Sprintf("%s result=runfail:%s%v", line, s, runErr))
 			continue
 		}
-		args := make([]reflect.Value, len(nn))
-		for k, t := range nn {
-			args[k] = mkCurryVal(t, int64(k+1)) // tag = curried position + 1
-		}
 		var res []reflect.Value
-		s = guarded(5*time.Second, func() { res = curriedPtr.Elem().Call(args) })
-		if s != "" {
-			out = append(out, line+" result=call:"+s)
+		var srcs [2][]string
+		failed := ""
+		for round, base := range []int64{1000, 2000} {
+			vals := make([]reflect.Value, len(curryTypes))
+			for k, t := range curryTypes {
+				vals[k] = mkCurryVal(t, base+int64(curryCode(t)))
+			}
+			if s = guarded(5*time.Second, func() { invPtr.Elem().Call(vals) }); s != "" {
+				failed = "runfail:" + s
+				break
+			}
+			args := make([]reflect.Value, len(nn))
+			for k, t := range nn {
+				args[k] = mkCurryVal(t, int64(k+1)) // tag = curried position + 1
+			}
+			if s = guarded(5*time.Second, func() { res = curriedPtr.Elem().Call(args) }); s != "" {
+				failed = "call:" + s
+				break
+			}
+			// what each original position received: aK = curried argument K, c = the chain's value of that type
+			src := make([]string, len(got))
+			for k, tag := range got {
+				switch {
+				case tag == base+int64(curryCode(o[k])):
+					src[k] = "c"
+				case tag >= 1 && tag <= int64(len(nn)):
+					src[k] = fmt.Sprintf("a%d", tag-1)
+				default:
+					src[k] = fmt.Sprintf("BAD%d", tag)
+				}
+			}
+			srcs[round] = src
+		}
+		if failed != "" {
+			out = append(out, line+" result="+failed)
 			continue
 		}
-		// what each original position received: aK = curried argument K, c = the chain's value of that type
-		src := make([]string, len(got))
-		for k, tag := range got {
-			switch {
-			case tag == int64(1000+curryCode(o[k])):
-				src[k] = "c"
-			case tag >= 1 && tag <= int64(len(nn)):
-				src[k] = fmt.Sprintf("a%d", tag-1)
-			default:
-				src[k] = fmt.Sprintf("BAD%d", tag)
-			}
+		src := srcs[0]
+		if strings.Join(srcs[0], ",") != strings.Join(srcs[1], ",") {
+			src = srcs[1] // the second invocation is the one that went wrong: show it
 		}
 		retOK := len(res) == len(oo)
 		for k := range res {
